@@ -505,7 +505,37 @@ def _series_after_dash_neutral(i):
     return o
 
 
+def _short_delim_flags(i):
+    out = []
+    for c in (i.get("tree") or {}).get("cmds") or []:
+        for f in c.get("flags") or []:
+            if f.get("short") and f.get("delim") not in (None, "", "="):
+                out.append(f)
+    return out
+
+
+def _short_delim_applies(i):
+    fl = _short_delim_flags(i)
+    return any(w.startswith("-" + f["short"] + f["delim"]) or (len(w) > 2 and w[0] == "-" and w[1] != "-" and (f["short"] + f["delim"]) in w)
+               for f in fl for w in (i.get("words") or []))
+
+
+def _short_delim_neutral(i):
+    # the letter's delimiter back to the default (and the words that use it rewritten accordingly)
+    o = copy.deepcopy(i)
+    for c in (o.get("tree") or {}).get("cmds") or []:
+        for f in c.get("flags") or []:
+            if f.get("short") and f.get("delim") not in (None, "", "="):
+                d = f["delim"]
+                o["words"] = [(w.replace(f["short"] + d, f["short"] + "=", 1) if (w.startswith("-") and not w.startswith("--")) else
+                               (w.replace("--" + f["name"] + d, "--" + f["name"] + "=", 1) if w.startswith("--" + f["name"] + d) else w)) for w in o["words"]]
+                f["delim"] = ""
+    return o
+
+
 PARSE_CLASSES = [
+    Class("posix_shorthand_custom_delimiter", ("C01",), ("parse",), _short_delim_applies, _short_delim_neutral,
+          "a one-letter shorthand of a flag with a custom OptargDelimiter (`-e:<TAB>`): LookupArg cuts the word at the flag's own delimiter and offers `-e:value`, but the fork's POSIX parser knows only `=` there: it stores `:value` (delimiter included) in the flag - and panics on `-e=value`, whose text it cuts at the absent `:`"),
     Class("descent_heuristics", ("C01", "C07"), ("parse",), _descent_applies, _descent_neutral,
           "traverse descends into a sub-command as soon as a word names one, even after a positional, an empty word, a pending shorthand chain or a flag the child resolves differently; cobra's own Find / stripFlags then runs another command or hands the skipped words down (e.g. `mid pos sub <TAB>` completes sub's positional 0, cobra runs mid with [pos sub X]; `--localflag sub <TAB>` offers what cobra rejects)"),
     Class("lone_dash_or_empty_word", ("C01", "C07"), ("parse",), _lone_dash_applies, _lone_dash_neutral,
